@@ -76,16 +76,17 @@ def generate(reg,c,pins=None,only_case=None,only_variant=None,extra_requires=())
           # frame: every field of every pre-existing object not listed in modifies is unchanged
           mods=set(cs.modifies if cs.modifies is not None else c.modifies)
           modlocs=set()
-          for loc in mods:
-            o,f=loc.split('.'); modlocs.add((env[o].id,f))
+          for loc in mods: modlocs|=resolve_locs(loc,env,st.entry_heap)
           diffs=[]
           for (oid,f),v0 in st.entry_heap.items():
             if f=='__class__' or (oid,f) in modlocs: continue
             v1=so.heap.get((oid,f))
             if v1 is v0: continue
             if v1 is None: diffs.append(z3.BoolVal(False)); continue
-            if is_intlike(v0) and is_intlike(v1): diffs.append(as_int(v0)==as_int(v1))
+            if isinstance(v0,z3.ExprRef) and isinstance(v1,z3.ExprRef): diffs.append(v0==v1)
+            elif is_intlike(v0) and is_intlike(v1): diffs.append(as_int(v0)==as_int(v1))
             elif isinstance(v0,Ref) and isinstance(v1,Ref): diffs.append(z3.BoolVal(v0.id==v1.id))
+            elif not isinstance(v0,Val) and v0==v1: continue
             else: diffs.append(z3.BoolVal(False))
           for (oid,f) in so.heap:
             if (oid,'__class__') in st.entry_heap and (oid,f) not in st.entry_heap and (oid,f) not in modlocs:
@@ -99,13 +100,14 @@ def generate(reg,c,pins=None,only_case=None,only_variant=None,extra_requires=())
             # an exception case promises the object state is untouched
             diffs=[]
             mods=set(cs.modifies if cs.modifies is not None else c.modifies); modlocs=set()
-            for loc in mods:
-              o_,f_=loc.split('.'); modlocs.add((env[o_].id,f_))
+            for loc in mods: modlocs|=resolve_locs(loc,env,st.entry_heap)
             for (oid,f),v0 in st.entry_heap.items():
               if f=='__class__' or (oid,f) in modlocs: continue
               v1=so.heap.get((oid,f))
               if v1 is v0: continue
-              if v1 is not None and is_intlike(v0) and is_intlike(v1): diffs.append(as_int(v0)==as_int(v1))
+              if v1 is not None and isinstance(v0,z3.ExprRef) and isinstance(v1,z3.ExprRef): diffs.append(v0==v1)
+              elif v1 is not None and is_intlike(v0) and is_intlike(v1): diffs.append(as_int(v0)==as_int(v1))
+              elif v1 is not None and not isinstance(v0,Val) and v0==v1: continue
               else: diffs.append(z3.BoolVal(False))
             for (oid,f) in so.heap:
               if (oid,'__class__') in st.entry_heap and (oid,f) not in st.entry_heap and (oid,f) not in modlocs:
